@@ -283,7 +283,7 @@ def run_creation(case: dict, root: str, *, sim_kwargs: dict | None = None, trace
             j = {"first": 0, "middle": len(centers) // 2, "last": len(centers)}[fault.get("pos", "last")]
             centers_given = np.insert(centers, j, far, axis=0)
         coords = yaw.AngularCoordinates(centers_given)
-        if p.get("centers_from_catalog") and kind != "empty_center":
+        if p.get("centers_from_catalog"):
             # the documented alternative: another catalog defines the patch centres
             from sim.scenes import sequential_mode
 
